@@ -503,7 +503,9 @@ class MultiCrossBlockRepeat(Block):
             preamble = 0
         lists = cast(List[T], [])
         while start < num_trials - preamble:
-            lists.append(proc(start, end))
+            # The last repetition is cut short when the number of trials is not a
+            # whole number of repetitions; there are no trials past the end to look at
+            lists.append(proc(start, min(end, num_trials)))
             start += step
             end += step
         return lists
